@@ -529,6 +529,23 @@ pub fn gen_c12(seed: u64, thorough: bool, only: Option<u64>, out: &mut Out) {
     let h = Client::unblind(&Point::from(&b0[..]), &CurveScalar::from(r0)).as_bytes().to_vec();
     out.case(format!("cl.h2g {}", hex(&input)), hex(&h), Ok(()));
     let mut verdict = Ok(());
+    // requests for inputs of which one is a prefix of the other, made one after the other on this thread: each is the
+    // blinding of its OWN input point (unblinding the request with its scalar gives the point of that input)
+    {
+      let mut longer = input.clone();
+      longer.extend_from_slice(b"-0017");
+      let shorter: Vec<u8> = input[..input.len() / 2].to_vec();
+      for inp in [longer.clone(), input.clone(), shorter.clone(), vec![], input.clone()] {
+        let (bq, rq) = blind(&inp);
+        out.case(format!("cl.blind {} {}", hex(&inp), hex(rq.as_bytes())), hex(&bq), Ok(()));
+        let back = Client::unblind(&Point::from(&bq[..]), &CurveScalar::from(rq)).as_bytes().to_vec();
+        let (b1, r1) = { let f = inp.clone(); std::thread::spawn(move || blind(&f)).join().unwrap() };
+        let fresh = Client::unblind(&Point::from(&b1[..]), &CurveScalar::from(r1)).as_bytes().to_vec();
+        if back != fresh {
+          verdict = Err(format!("the request for an input of {} bytes, made after a request for an input sharing its first bytes, is not a blinding of that input's point", inp.len()));
+        }
+      }
+    }
     for rep in 0..3 {
       let (b, rs) = blind(&input);
       out.case(format!("cl.blind {} {}", hex(&input), hex(rs.as_bytes())), hex(&b), Ok(()));
@@ -542,6 +559,11 @@ pub fn gen_c12(seed: u64, thorough: bool, only: Option<u64>, out: &mut Out) {
         if let Some(ev) = w.eval(0, md, &b, verifiable) {
           let ub = Client::unblind(&ev.output, &CurveScalar::from(rs));
           out.case(format!("cl.unblind {} {}", hex(ev.output.as_bytes()), hex(rs.as_bytes())), format!("ok {}", hex(ub.as_bytes())), Ok(()));
+          // a client that kept its blinding as 32 bytes between request and response unblinds to the same point
+          let ub2 = Client::unblind(&ev.output, &CurveScalar::from(rs.to_bytes()));
+          if ub2.as_bytes() != ub.as_bytes() {
+            verdict = Err(format!("unblinding with the blinding scalar restored from its 32 bytes gives another point (tag {})", md));
+          }
           let direct = w.eval(0, md, &h, false).map(|e| e.output.as_bytes().to_vec());
           if direct.as_deref() != Some(&ub.as_bytes()[..]) {
             verdict = Err(format!("unblinded result differs from the evaluation of the unblinded point (tag {}, request {})", md, rep));
@@ -705,6 +727,14 @@ pub fn gen_c13(seed: u64, thorough: bool, only: Option<u64>, out: &mut Out) {
     };
     // completeness, also after the public key and the evaluation went through their serialised forms
     emit(&pkb, &b, &outb, Some(&prb), md, true, "honest evaluation", out);
+    // ... for every request the server answers, the neutral element included
+    {
+      let zero = vec![0u8; 32];
+      if let Some(evz) = w.eval(0, md, &zero, true) {
+        let pz = evz.proof.as_ref().unwrap().serialize_to_bincode().unwrap();
+        emit(&pkb, &zero, evz.output.as_bytes(), Some(&pz), md, true, "honest evaluation of the neutral request", out);
+      }
+    }
     let js = serde_json::to_string(&ev).unwrap();
     let ev_back: Evaluation = serde_json::from_str(&js).expect("evaluation JSON parses");
     let prb_back = ev_back.proof.as_ref().unwrap().serialize_to_bincode().unwrap();
@@ -767,12 +797,15 @@ pub fn gen_c13(seed: u64, thorough: bool, only: Option<u64>, out: &mut Out) {
     if let Some(e) = &ev_other_srv { outs.push((e.output.as_bytes().to_vec(), "output of another server".into())); }
     outs.push(((RISTRETTO_BASEPOINT_POINT + CompressedRistretto::from_slice(&outb).unwrap().decompress().unwrap()).compress().as_bytes().to_vec(), "output + G".into()));
     for k in [0usize, 7, 31] { outs.push((flip(&outb, k), format!("output byte {} flipped", k))); }
+    // the same encoding with its top bit set (not a valid encoding; must not be read as the same element)
+    let top = |v: &[u8]| { let mut x = v.to_vec(); x[31] ^= 0x80; x };
+    outs.push((top(&outb), "the output with the top bit of its encoding set".into()));
     for (o2, wname) in &outs {
       if *o2 != outb {
         emit(&pkb, &b, o2, Some(&prb), md, false, &format!("output point replaced by {}", wname), out);
       }
     }
-    for (i2, wname) in [(b_other.clone(), "another blinded input"), (idb.clone(), "identity"), (outb.clone(), "the output point"), (flip(&b, 3), "input byte flipped")] {
+    for (i2, wname) in [(b_other.clone(), "another blinded input"), (idb.clone(), "identity"), (outb.clone(), "the output point"), (flip(&b, 3), "input byte flipped"), (top(&b), "the input with the top bit of its encoding set")] {
       if i2 != b {
         emit(&pkb, &i2, &outb, Some(&prb), md, false, &format!("input point replaced by {}", wname), out);
       }
@@ -784,7 +817,7 @@ pub fn gen_c13(seed: u64, thorough: bool, only: Option<u64>, out: &mut Out) {
     let n_md = mds.len();
     for which in 0..=n_md {
       let off = if which == 0 { 0 } else { 40 + 33 * (which - 1) + 1 };
-      for (repl, wname) in [(idb.clone(), "identity"), (pk2b[off..off + 32].to_vec(), "the other server's value"), (flip(&pkb[off..off + 32], 0), "a flipped byte"), (vec![0xff; 32], "an undecodable point")] {
+      for (repl, wname) in [(idb.clone(), "identity"), (pk2b[off..off + 32].to_vec(), "the other server's value"), (flip(&pkb[off..off + 32], 0), "a flipped byte"), (vec![0xff; 32], "an undecodable point"), (top(&pkb[off..off + 32]), "itself with the top bit of the encoding set")] {
         let mut p2 = pkb.clone();
         p2[off..off + 32].copy_from_slice(&repl);
         let relevant = which == 0 || pkb[40 + 33 * (which - 1)] == md;
@@ -969,6 +1002,20 @@ fn json_pt_obs(js: &str) -> String {
 pub fn gen_json(seed: u64, thorough: bool, out: &mut Out) {
   let mut r = Prng::for_case(seed, "C15j", 0);
   let s = Server::new(vec![1u8, 2]).expect("server");
+  // the neutral element is a point like any other: the evaluation of the neutral request (32 zero bytes) and the
+  // neutral point itself survive their JSON forms
+  for verifiable in [false, true] {
+    let zero = Point::from(&[0u8; 32][..]);
+    if let Ok(ev) = s.eval(&zero, 1, verifiable) {
+      let js = serde_json::to_string(&ev).unwrap();
+      let o = json_ev_obs(&js);
+      let want_prefix = format!("ok {} ", hex(ev.output.as_bytes()));
+      out.case(format!("json.ev {}", hex(js.as_bytes())), o.clone(), if o.starts_with(&want_prefix) && o.ends_with(&hex(js.as_bytes())) { Ok(()) } else { Err("the evaluation of the neutral request does not survive its JSON form".into()) });
+      let pj = serde_json::to_string(&ev.output).unwrap();
+      let po = json_pt_obs(&pj);
+      out.case(format!("json.pt {}", hex(pj.as_bytes())), po.clone(), if po == format!("ok {} {}", hex(ev.output.as_bytes()), hex(pj.as_bytes())) { Ok(()) } else { Err("the neutral point does not survive its JSON form".into()) });
+    }
+  }
   for i in 0..(if thorough { 60 } else { 8 }) {
     let (bp, _) = blind(&r.bytes(1 + (i % 7)));
     let ev = s.eval(&Point::from(&bp[..]), 1 + (i % 2) as u8, i % 3 != 0).unwrap();
@@ -1005,6 +1052,14 @@ pub fn gen_json(seed: u64, thorough: bool, out: &mut Out) {
       bad.push(format!("{}{}{}", &js[..start], arr, &js[close..]));
     }
     bad.push(pj[..pj.len() - 1].to_string());
+    // point arrays with too few / too many numbers (never a partially filled point)
+    {
+      let nums: Vec<String> = ev.output.as_bytes().iter().map(|b| b.to_string()).collect();
+      for n in [0usize, 1, 3, 31] {
+        bad.push(format!("[{}]", nums[..n].join(",")));
+      }
+      bad.push(format!("[{},7]", nums.join(",")));
+    }
     for b in bad {
       let is_pt = b.starts_with('[');
       let o = if is_pt { json_pt_obs(&b) } else { json_ev_obs(&b) };
